@@ -105,6 +105,27 @@ def kind : Kind where
         else { st := st, tags := ["shape:outside-invariant"]
                model := some [.atom "a-tree-shape-satisfying-NodeInv(fill,separators,order)-of-Lemmas/C10"] }
       | _ => { st := st, bad := some "btree shape line" }
+    else if l.op == "fillasc" || l.op == "removeasc" then
+      -- long runs: n Puts / Removes of ascending keys in one line (closed forms proved equal to the single steps:
+      -- `Theorems.C10.fillAsc_exec`, `dropAsc_exec`); the model tree takes the single steps (logarithmic each)
+      match l.args with
+      | [.int a, .int n] =>
+        if n < 0 then { st := st, bad := some "btree bulk: negative count" } else
+        let fill := l.op == "fillasc"
+        let pre := if fill then fillPre st.s a else dropPre st.s a n.toNat
+        if !pre then { st := st, bad := some s!"btree {l.op}: precondition of the closed form does not hold" } else
+        let s' := if fill then fillAsc st.s a n.toNat else dropAsc st.s n.toNat
+        let t' := (ascKeys a n.toNat).foldl (fun (t : Option Model.BTree.Tree) k =>
+          (modelStep t (if fill then Op.put k k else Op.remove k)).1) st.t
+        let mo : Option (List Val) := match t' with
+          | some _ => some [.atom "ok"]
+          | none => some [.atom "panic"]
+        match failRes l.res with
+        | some c => { st := { st with s := s', t := t' }, model := mo, tags := [l.op], spec := some s!"{c}:{l.op}" }
+        | none =>
+          { st := { st with s := s', t := t' }, model := mo, tags := [l.op], nontrivial := true
+            spec := if l.res == [.atom "ok"] then none else some s!"ordered-map:{l.op}" }
+      | _ => { st := st, bad := some "btree bulk line" }
     else
     match parseOp l with
     | none => { st := st, bad := some s!"bad btree op {l.op}" }
